@@ -217,6 +217,15 @@ structure Aggregator where
   DropRaw : Bool
   matchWithCache : Bytes → Bytes × Bool
 
+/-- destination/destination.go `type Destination struct`: the filter (`lockMatcher` guards it) -/
+structure Destination where
+  Matcher : Matcher
+/-- route/route.go `baseConfig` / `baseRoute`: the route's filter inside its published config -/
+structure BaseConfig where
+  Matcher : Matcher
+structure baseRoute where
+  config : BaseConfig
+
 /-- a `matcher.Matcher` seen from the table (blacklist entry) -/
 structure MatcherI where
   id : Nat
